@@ -5,9 +5,12 @@ from __future__ import annotations
 from typing import TYPE_CHECKING
 from typing import Any
 from typing import Iterable
+from typing import ItemsView
 from typing import Iterator
+from typing import KeysView
 from typing import Mapping
 from typing import TextIO
+from typing import ValuesView
 
 from liquid2 import BlockNode
 from liquid2 import Expression
@@ -258,6 +261,18 @@ class ForLoop(Mapping[str, object]):
 
     def __len__(self) -> int:
         return len(self._keys)
+
+    # NOTE: `__iter__` iterates loop items, not keys, so the mapping views, which
+    # `Mapping` implements in terms of `__iter__`, must be given explicitly.
+
+    def keys(self) -> KeysView[str]:  # noqa: D102
+        return dict.fromkeys(sorted(self._keys)).keys()
+
+    def items(self) -> ItemsView[str, object]:  # noqa: D102
+        return {key: self[key] for key in sorted(self._keys)}.items()
+
+    def values(self) -> ValuesView[object]:  # noqa: D102
+        return {key: self[key] for key in sorted(self._keys)}.values()
 
     def __next__(self) -> object:
         self.step()
